@@ -153,9 +153,51 @@ def alternatives_fn(mir):
     return out
 
 
+def routing(mir):
+    """select_switch_on_term_index: which of the four tables (v, c, l, s) each kind of first
+    argument is sent to. Returns ({kind: table}, spec, problems)."""
+    from .c11 import enum_values
+    body = mir.body(mir.find(r"::select_switch_on_term_index$")[0])
+    paths = core.Executor(body, max_depth=200).run("bb0")
+    tags = {v: k for k, v in enum_values("src/types.rs", "HeapCellValueTag").items()}
+    atags = {v: k for k, v in enum_values("src/arena.rs", "ArenaHeaderTag").items()}
+    param = {("s", "_3"): "v", ("s", "_4"): "c", ("s", "_5"): "l", ("s", "_6"): "s"}
+    got = {}
+    for p in paths:
+        if p.end != "return":
+            continue
+        kind, sub = None, ""
+        for t, op, v in p.conds:
+            ra = util.root_app(t)
+            if t[0] == "disc" and ra and ra[1].endswith("HeapCellValue::get_tag") and op == "==":
+                kind = tags.get(v, "tag%d" % v)
+            elif t[0] == "disc" and ra and ra[1].endswith("get_tag") and kind == "Cons":
+                sub = ":" + (atags.get(v, "?") if op == "==" else "other")
+            elif ra and ra[1].endswith("get_name_and_arity"):
+                proj = util.field_path(t)[1]
+                if proj[-1] == ".1":        # arity
+                    if op == "==":
+                        sub += ":arity%d" % v
+                    else:
+                        sub += ":arity_not_%s" % "_".join(map(str, v))
+                else:                       # name index
+                    sub += ":dot" if op == "==" else ":notdot"
+        r = p.env.get("_0")
+        tgt = param.get(r) or (r[1].split("::")[-1] if r and r[0] == "agg" else str(r))
+        got[(kind or "?") + sub] = tgt
+    spec = {"Var": "v", "StackVar": "v", "AttrVar": "v", "Lis": "l", "PStrLoc": "l",
+            "Fixnum": "c", "CutPoint": "c", "F64Offset": "c", "Atom": "c",
+            "Cons:Integer": "c", "Cons:Rational": "c", "Cons:other": "Fail",
+            "Str:dot:arity2": "l", "Str:dot:arity_not_2:arity0": "c",
+            "Str:dot:arity_not_2:arity_not_0": "s", "Str:notdot:arity0": "c",
+            "Str:notdot:arity_not_0": "s"}
+    return got, spec
+
+
 def run(thorough=False):
     try:
         mir, secs, cached = util.get()
+        rt_got, rt_spec = routing(mir)
         cs, tagc = call_side(mir)
         cl = clause_side(mir)
         af = alternatives_fn(mir)
@@ -201,9 +243,20 @@ def run(thorough=False):
        "true" if cl["alt"] else "false")
     q_fit = prelude + "(assert (fits (val A)))\n(assert (not (in_clause_keys (key_call A) L)))"
     q_big = prelude + "(assert (not (fits (val A))))\n(assert (not (in_clause_keys (key_call A) L)))"
-    br = smt.check_batch([q_fit, q_big], thorough=thorough,
-                         getvals=[["L", "A"], ["L", "A"]])
-    res = {"evaluations": 2, "distinct_nontrivial": 0, "samples": [],
+    keys = sorted(set(rt_got) | set(rt_spec))
+    ids = {}
+    a = b = "0"
+    for i, k in enumerate(keys):
+        a = "(ite (= f %d) %d %s)" % (i, ids.setdefault(rt_got.get(k, "missing"), len(ids) + 1), a)
+        b = "(ite (= f %d) %d %s)" % (i, ids.setdefault(rt_spec.get(k, "unexpected"), len(ids) + 1), b)
+    q_rt = "(declare-const f Int)\n(assert (and (>= f 0) (< f %d)))\n(assert (not (= %s %s)))" % (
+        len(keys), a, b)
+    rt_diffs = [{"kind": k, "routed_to": rt_got.get(k), "expected": rt_spec.get(k)} for k in keys
+                if rt_got.get(k) != rt_spec.get(k)]
+    br = smt.check_batch([q_fit, q_big, q_rt], thorough=thorough,
+                         getvals=[["L", "A"], ["L", "A"], ["f"]])
+    res = {"evaluations": 3, "distinct_nontrivial": 0, "samples": [],
+           "mirsmt_routing": rt_got,
            "mirsmt_regions": ["execute_switch_on_term (SwitchOnConstant arm)",
                               "CodeOffsets::index_constant", "constant_key_alternatives"],
            "mirsmt_facts": {"call_side": cs, "call_guard_constant": tagc, "clause_side": cl,
@@ -229,6 +282,23 @@ def run(thorough=False):
             a_fit["answer"], a_big["answer"]))
     from .. import prolog
     exit_code = EXIT_OK
+    a_rt = br["results"][2]["answer"]
+    res["samples"].append({"query": "first-level routing table == specification (%d kinds)" % len(keys),
+                           "answer": a_rt})
+    if a_rt == "unsat" and not rt_diffs:
+        res["distinct_nontrivial"] += 1
+    elif a_rt == "sat" and rt_diffs:
+        res["mirsmt_routing_differences"] = rt_diffs
+        rp = prolog.replay_index_routing(rt_diffs)
+        if rp["reproduced"]:
+            log("VIOLATION property=C06 replay=%s" % rp["path"])
+            exit_code = EXIT_VIOLATION
+        else:
+            log("  mirsmt C06: routing difference %s did not reproduce (%s) -> inconclusive" % (
+                rt_diffs[:3], rp.get("why")))
+            exit_code = EXIT_INCONCLUSIVE
+    else:
+        exit_code = EXIT_INCONCLUSIVE
     if a_fit["answer"] == "unsat":
         res["distinct_nontrivial"] += 1
     elif a_fit["answer"] == "sat":
@@ -236,11 +306,11 @@ def run(thorough=False):
         if rp["reproduced"]:
             log("VIOLATION property=C06 replay=%s" % rp["path"])
             exit_code = EXIT_VIOLATION
-        else:
+        elif exit_code == EXIT_OK:
             log("  mirsmt C06: model did not reproduce on the binary (%s) -> inconclusive" %
                 rp.get("why"))
             exit_code = EXIT_INCONCLUSIVE
-    else:
+    elif exit_code == EXIT_OK:
         exit_code = EXIT_INCONCLUSIVE
     if a_big["answer"] == "unsat":
         res["distinct_nontrivial"] += 1
